@@ -133,6 +133,9 @@ def main(prop, tier, seed, replay_file):
         if str(_rp.get("family", "")).startswith("consumer"):
             from . import check_consumer
             return check_consumer.main(prop, tier, seed, replay_file)
+        if _rp.get("family") == "timeouts":
+            from . import check_calls
+            return check_calls.replay(_rp, replay_file)
     if replay_file:
         with open(replay_file) as f:
             rp = json.load(f)
